@@ -44,6 +44,9 @@ func nextOf(fl *Flow, p *Path) string {
 	if next == "nil" {
 		return Terminal
 	}
+	if strings.HasPrefix(next, "method:"+pkgSM+".finalStates.") {
+		return "final." + strings.TrimPrefix(next, "method:"+pkgSM+".finalStates.")
+	}
 	return strings.TrimPrefix(next, "method:"+pkgSM+".States.")
 }
 
